@@ -33,6 +33,7 @@ func init() {
 }
 
 func runC07(c *core.Ctx) {
+	everyFamilyHandled(c, "every-family-torn-down", c.MustFunc(srv+".(*establishedState).uninit"), c.MustFunc(srv+".(*fsmAddressFamily).dispose"))
 	uninit := exitEstablishedUninit(c)
 	if uninit == nil {
 		return
